@@ -173,7 +173,23 @@ let cmd_adrnest t =
       [wrap mid; mid; p] in
   print_endline (Stdlib.String.concat " ;; " (Stdlib.List.map (level_line net key) levels))
 
+(* foreign prefix "<hrp>x": the model's answers for the bech32 and the blech32 spelling *)
+let cmd_adrforeign t =
+  let net = net_of_int (next_int t) in
+  let ty = next_int t in
+  let payload = next_hex t in let key = next_hex t in
+  let ver = if ty = 4 then 1 else if ty >= 2 then 0 else int_of_byte (if ty = 0 then Addr.n_pkh net else Addr.n_sh net) in
+  let vb = byte_of_int ver in
+  let str o = match o with Some s -> s | None -> [] in
+  let xb = byte_of_int 120 in
+  let conv = str (bcb payload (n_of_int 8) (n_of_int 5) true) in
+  let x = str (benc (ver = 1) (Addr.n_bech32 net @ [xb]) (vb :: conv)) in
+  let bconv = str (bcb (key @ payload) (n_of_int 8) (n_of_int 5) true) in
+  let enc = if ver = 1 then B32.coq_BLECH32M else B32.coq_BLECH32 in
+  let y = str (B32.encode (Addr.n_blech32 net @ [xb]) (vb :: bconv) enc) in
+  print_endline (adrdec_line x ^ " ;; " ^ adrdec_line y)
+
 let () =
-  register "adrnest" cmd_adrnest; register "adrhist" cmd_adrhist; register "adrcase" cmd_adrcase; register "adrconst" cmd_adrconst;
+  register "adrforeign" cmd_adrforeign; register "adrnest" cmd_adrnest; register "adrhist" cmd_adrhist; register "adrcase" cmd_adrcase; register "adrconst" cmd_adrconst;
   register "adrdec" cmd_adrdec; register "adrenc" cmd_adrenc; register "adrpay" cmd_adrpay;
   register "adrscr" cmd_adrscr; register "adrform" cmd_adrform
